@@ -16,7 +16,10 @@ RULE = (
     "the reference interpreter. In addition all OPS look-alike programs (incl. pairs that differ only in a -1 / -2 coefficient "
     "or exponent) are compiled one after the other in ONE process, in both orders and both CSE settings, and each is checked "
     "right after compiling and again after all were compiled. distinct = distinct definition records; non-trivial = >=2 input symbols and at least "
-    "one grid point evaluated (not skipped as singular)."
+    "one grid point evaluated (not skipped as singular). Also: CSE chains whose temporaries are read only by other temporaries (depth 3-5), "
+    "temporaries that depend only on the control / calibration / dt, definitions whose symbols carry sympy assumptions "
+    "(real=True / finite=True on all or on some symbols), and a block-size sweep (1..8 states, dense rows, rows with more "
+    "temporaries than statements)."
 )
 ASSUMPTIONS = [
     "expressions limited to the grammar (+ - * /, integer powers 2,3,-1,-2, sin cos tan atan tanh exp log sqrt), depth <= 3",
@@ -34,6 +37,12 @@ def cases(tier, seed):
     strs = [dict(d, as_strings=True, name=d["name"] + "-str") for d in space.family_ops("quick")]
     strs += [dict(d, as_strings=True, name=d["name"] + "-str") for d in space.family_bind("quick")[::3]]
     defs += strs if tier == "thorough" else strs[::4]
+    # symbols declared with sympy assumptions (different objects from plain Symbol(name)): all symbols, or only some of them
+    b = space.family_bind("quick")
+    defs += [space.assumed(b[13]), space.assumed(b[26]), space.assumed(b[22], ["x", "w"]), space.assumed(b[17], ["y", "k"], "finite")]
+    defs += [space.assumed(d) for d in space.family_cse("quick") if any(t in d["name"] for t in ("chain4", "ctl-only", "nest3b"))]
+    # block-size sweep (n = 1..8 statements per model block, rows with many temporaries of their own)
+    defs += space.family_sizes(tier)
     for d in defs:
         nsym = len(d["state"]) + len(d["control"])
         p = per if nsym <= 5 else 2
